@@ -207,6 +207,36 @@ class LogAddExp:
         return T.mk_log(P(s))
 
 
+class _UFunc:
+    """binary ufunc stand-in: callable, with .outer"""
+
+    def __init__(self, f, name):
+        self.f, self.name = f, name
+        self.np = getattr(f, "__self__", None)
+
+    def __call__(self, *a, **k):
+        return self.f(*a, **k)
+
+    def reduce(self, x, axis=0, **kw):
+        if self.name != "add":
+            raise ModelError("np.%s.reduce" % self.name)
+        used("np.add.reduce")
+        return self.np.sum(x, axis=axis)
+
+    def outer(self, a, b, **kw):
+        used("np.%s.outer" % self.name)
+        a, b = lift(a), lift(b)
+        if not isinstance(a, Arr) or not isinstance(b, Arr):
+            return self.f(a, b)
+        a2 = A.getitem(a, (Ellipsis,) + (None,) * b.ndim)
+        return self.f(a2, b)
+
+
+class _NS:
+    def __init__(self, **kw):
+        self.__dict__.update(kw)
+
+
 class FInfo:
     def __init__(self, t=None):
         self.eps = 2.220446049250313e-16
@@ -232,6 +262,9 @@ class NP:
         self.int64 = TypeMarker("int64")
         self.Array = TypeMarker("daarray")      # dask.array.Array
         self.AxisError = TypeMarker("AxisError")
+        self.core = _NS(Array=self.Array)       # dask.array.core.Array
+        for nm_ in ("multiply", "add", "subtract"):
+            setattr(self, nm_, _UFunc(getattr(self, nm_), nm_))
 
     def finfo(self, t=None):
         return FInfo(t)
@@ -424,8 +457,17 @@ class NP:
             return (A.IndexSet(lambda i: T.mk_ind(C(cc.fn(i))), cond.shape[0]),)
         return ewise(lambda c, a, b: T.mk_ite(C(c), P(a), P(b)), cond, lift(x), lift(y), dtype="real")
 
-    def isfinite(self, x):
-        raise ModelError("np.isfinite")
+    def flatnonzero(self, x):
+        used("np.flatnonzero")
+        x = lift(x)
+        if not isinstance(x, Arr) or x.ndim != 1:
+            raise ModelError("np.flatnonzero on a non-1-d array")
+        xf = x.fn
+        return A.IndexSet(lambda i: T.mk_ind(C(xf(i)) if x.dtype == "bool" else T.cmp_cond("!=", P(xf(i)), ZERO)), x.shape[0])
+
+    def identity(self, n, dtype=None, **kw):
+        used("np.identity")
+        return A.eye(n, None)
 
     # ---- reductions
     def sum(self, x, axis=None, keepdims=False, **kw):
@@ -640,6 +682,20 @@ class Concat:
 
     def __init__(self, lst):
         self.lst = lst
+
+    def slen(self):
+        lst = self.lst
+
+        def blen(b):
+            blk = lst.elem(b)
+            if not isinstance(blk, Arr) or blk.ndim != 1:
+                raise ModelError("concatenate of non-1-d blocks")
+            return P(blk.shape[0])
+        return T.Sum(lst.length, blen, "b")
+
+    @property
+    def shape(self):
+        return (self.slen(),)
 
     def bincount(self, minlength):
         lst = self.lst
